@@ -41,13 +41,24 @@ def main(argv):
         rc, log = common.lake(["build", "hvsrdrv"])
         if rc != 0:
             print(log[-2000:]); return 2
-        res = mod.replay(rp["case"]) if "case" in rp else None
+        if rp.get("clause") == "translator-validation":
+            import pyvalidate
+            res = pyvalidate.replay(rp["case"])
+        else:
+            res = mod.replay(rp["case"]) if "case" in rp else None
         print(json.dumps(dict(replayed=rp.get("clause"), result=res), indent=1, default=str))
         return 0
     ctx = Ctx(prop, tier, seed)
     try:
         lean_phase(ctx, mod.PROP_MODULES, mod.BRIDGE_MODULES)
         mod.run(ctx)
+        # the translated kernels this property's bridges are about: run the original Python statements and the generated Lean
+        # definitions on the same inputs (validation of the translator, harness/pyvalidate.py)
+        groups = [m.split(".Bridge.Py")[1] for m in mod.BRIDGE_MODULES if ".Bridge.Py" in m]
+        if groups:
+            import numpy as _np
+            import pyvalidate
+            pyvalidate.validate(ctx, groups, _np.random.default_rng(seed + 7919))
         code = ctx.finish()
     except InfraError as e:
         print(f"INFRA-ERROR {prop}: {e}")
